@@ -93,6 +93,15 @@ func GenCase(r *core.Rng, id int, pDecor, pBad float64) *Case {
 		l = gen.RandomLayout(r, len(defs), true)
 	}
 	cfg := gen.RandomCfg(r, s)
+	if id%8 == 5 {
+		// variables on one line, an input object first, under use_struct_references: every
+		// variable has its own options
+		if iv := gen.InputThenScalarsOp(s, "IV"); iv != nil {
+			defs = append(defs, iv)
+			l = gen.SingleFile(len(defs))
+			cfg.StructReferences = true
+		}
+	}
 	// settings interact with options: an explicit `omitempty: false` matters most under
 	// use_struct_references (whose default is omitempty), an explicit `pointer: false` under
 	// optional: pointer
